@@ -548,7 +548,9 @@ func (tr *Tr) frameFormulas(fc *FuncContract, mods map[string]modInfo, env *CEnv
 // emitIfaceBindings: for an interface value whose dynamic type is statically known and whose methods have verified
 // contracts marked "implements <iface method>", state (for the current heap) that whatever the interface contract says
 // about a call's results, the implementation's verified postcondition holds for them too:
-//     forall params, results :: iface_post(self, params, results) ==> impl_post(recv, params, results)
+//
+//	forall params, results :: iface_post(self, params, results) ==> impl_post(recv, params, results)
+//
 // The abstract functions of interface contracts take the heap versions they read as arguments, so bindings made in
 // different states do not interfere.
 func (tr *Tr) emitIfaceBindings(st *State, iv If) {
